@@ -26,8 +26,8 @@ Parameters (hypotheses, never axioms):
   A truncated (not yet fully visible) input makes the reference fail, so end-of-input and resumption
   are not part of these statements (that is C05).
 
-Readers are compared up to `Sim`: the scratch-row length (`next_row` resizes the library's row,
-`read_row` and the non-interlaced loop of `next_frame` do not) and — `Sim True` only — the `Info` the
+Readers are compared up to `PSim`: the scratch-row length (`next_row` resizes the library's row,
+`read_row` and the non-interlaced loop of `next_frame` do not) and — `PSim True` only — the `Info` the
 transformation was created from.  `related_readers_behave_alike` shows that nothing observable depends
 on either.
 
@@ -73,7 +73,7 @@ theorem row_then_frame (cfg : Cfg) (t : TCfg) (ht : t.Ok) (r rE : R) (i : Info) 
     (hW : frameInto cfg t r buf = (rE, .frame oi B, B)) :
     ∃ data r1 buf1, nextInterlacedRow cfg t r = (r1, .row ii data) ∧
       placeRow (outLineSize t i r.flags r.sub.width) (outBits t i r.flags) buf ii data = some buf1 ∧
-      ∃ rE1, frameInto cfg t r1 buf1 = (rE1, .frame oi B, B) ∧ Sim False rE rE1 :=
+      ∃ rE1, frameInto cfg t r1 buf1 = (rE1, .frame oi B, B) ∧ PSim False rE rE1 :=
   frameInto_row cfg ht hI hF hi hcur hW
 
 /-- **the end of a frame**: when no row is left, `next_frame` returns the buffer as it is, the row-level
@@ -81,7 +81,7 @@ theorem row_then_frame (cfg : Cfg) (t : TCfg) (ht : t.Ok) (r rE : R) (i : Info) 
 theorem frame_end (cfg : Cfg) (t : TCfg) (ht : t.Ok) (r rE : R) (i : Info) (buf B : Bytes) (oi : OutputInfo)
     (hI : Inv t r) (hi : r.dec.info = some i) (hcur : r.sub.cur = none)
     (hW : frameInto cfg t r buf = (rE, .frame oi B, B)) :
-    B = buf ∧ ∃ r1, nextInterlacedRow cfg t r = (r1, .noRow) ∧ Sim False rE r1 :=
+    B = buf ∧ ∃ r1, nextInterlacedRow cfg t r = (r1, .noRow) ∧ PSim False rE r1 :=
   frameInto_end cfg ht hI hi hcur hW
 
 /-! ## (3) Any number of row-level calls -/
@@ -94,7 +94,7 @@ theorem path_agreement (cfg : Cfg) (t : TCfg) (ht : t.Ok) (i : Info) (stride bit
     (buf bufk B : Bytes) (oi : OutputInfo) (hc : RowCalls cfg t stride bits r buf rk bufk) (hI : Inv t r)
     (hF : Line0Fresh r) (hi : r.dec.info = some i) (hst : stride = outLineSize t i r.flags r.sub.width)
     (hbits : bits = outBits t i r.flags) (hW : frameInto cfg t r buf = (rE, .frame oi B, B)) :
-    ∃ rEk, frameInto cfg t rk bufk = (rEk, .frame oi B, B) ∧ Sim False rE rEk := by
+    ∃ rEk, frameInto cfg t rk bufk = (rEk, .frame oi B, B) ∧ PSim False rE rEk := by
   obtain ⟨rEk, k1, k2, _⟩ := Reader.path_agreement cfg ht hc hI hF hi hst hbits hW
   exact ⟨rEk, k1, k2⟩
 
@@ -106,7 +106,7 @@ theorem mid_frame_switch (cfg : Cfg) (t : TCfg) (ht : t.Ok) (i : Info) (stride b
     (hz : ZInv cfg r.dec) (hF : Line0Fresh r) (hcaf : r.sub.caf = false) (hi : r.dec.info = some i)
     (hst : stride = outLineSize t i r.flags r.sub.width) (hbits : bits = outBits t i r.flags)
     (hW : nextFrameBuf cfg t r buf = (rE, .frame oi B, B)) :
-    ∃ rEk, nextFrameBuf cfg t rk bufk = (rEk, .frame oi B, B) ∧ Sim False rE rEk :=
+    ∃ rEk, nextFrameBuf cfg t rk bufk = (rEk, .frame oi B, B) ∧ PSim False rE rEk :=
   Reader.mid_frame_switch cfg ht hc hI hz hF hcaf hi hst hbits hW
 
 /-- **rows alone**: a frame decoded entirely by row-level calls, every row placed, is the frame of one
@@ -150,16 +150,16 @@ theorem skip_agrees (cfg : Cfg) (t : TCfg) (ht : t.Ok) (r rE : R) (i : Info) (bu
     (hW : frameInto cfg t r buf = (rE, .frame oi B, B)) :
     (nextFrameInfo cfg t r).2 = (nextFrameInfo cfg t rE).2 ∧
     (∀ fc, (nextFrameInfo cfg t rE).2 = .frameInfo fc →
-      Sim True (nextFrameInfo cfg t rE).1 (nextFrameInfo cfg t r).1) :=
+      PSim True (nextFrameInfo cfg t rE).1 (nextFrameInfo cfg t r).1) :=
   Reader.skip_agrees cfg ht hI hi hcaf hW
 
-/-- **`related_readers_behave_alike`**: readers related by `Sim` return the same results for every
+/-- **`related_readers_behave_alike`**: readers related by `PSim` return the same results for every
     sequence of `Reader` calls (`next_frame`, `next_row`, `read_row`, `next_frame_info`, `finish`, growth
     of the visible input) and stay related -/
 theorem related_readers_behave_alike (cfg : Cfg) (t : TCfg) (ht : t.Ok) (b : Prop) (hb : b → t.SnapIndep)
-    (ops : List Op) (r r' : R) (hops : ∀ op ∈ ops, op.onReader = true) (h : Sim b r r') (hL : Live t r)
+    (ops : List Op) (r r' : R) (hops : ∀ op ∈ ops, op.onReader = true) (h : PSim b r r') (hL : Live t r)
     (hL' : Live t r') : SimRes b (run cfg t r ops) (run cfg t r' ops) :=
-  run_sim cfg ht hb ops r r' hops h hL hL'
+  run_psim cfg ht hb ops r r' hops h hL hL'
 
 /-- **`skip_does_not_change_later_frames`**: after the skip, every sequence of `Reader` calls returns
     the same results as after decoding the frame and then calling `next_frame_info` -/
